@@ -10,7 +10,7 @@ use crate::cancel::Cancel;
 use crate::coroutine_impl::co_get_handle;
 use crate::coroutine_impl::{CoroutineImpl, EventSource};
 use crate::io as io_impl;
-use crate::yield_now::yield_with_io;
+use crate::yield_now::{get_co_para, yield_with_io};
 
 pub struct RawIoBlock<'a> {
     io_data: &'a io_impl::IoData,
@@ -48,6 +48,10 @@ impl EventSource for RawIoBlock<'_> {
 
     /// after yield back process
     fn yield_back(&self, _cancel: &'static Cancel) {
+        // `wait_io` has no error path, so consume the `Canceled` result that
+        // `yield_with` passes in when it detects the cancel in user space,
+        // or it would be seen by the next park/io call on this stack
+        get_co_para();
         #[cfg(feature = "io_cancel")]
         _cancel.clear_cancel_bit();
     }
